@@ -45,7 +45,9 @@ def validated_elsewhere(name, unit_results):
         _VALIDATION_CACHE[v] = res
     if res.refused or res.compile_error:
         return False
-    mine = [it for it in res.items if it["kind"] == "fn" and "ASSUMED" not in it.get("rules", []) and (it["name"] == name or it["name"].startswith(name + "#"))]
+    if any(d == name or d.startswith(name + "#") for d in getattr(res, "degraded", {})):
+        return False
+    mine = [it for it in res.items if it["kind"] == "fn" and "ASSUMED" not in it.get("rules", []) and not it.get("degraded") and (it["name"] == name or it["name"].startswith(name + "#"))]
     if not any(it["name"] == name for it in mine):
         return False
     for d in res.diags:
@@ -183,15 +185,69 @@ def classify(pid, unit_results):
     return {"failing": failing, "undecided": undecided, "obligations": n_obl, "discharged": n_dis, "per_tag": per_tag, "samples": samples}
 
 
-def check_baseline(pid, per_tag):
+def check_baseline(pid, per_tag, unit_results=None):
     base = load_json(BASELINE, {}).get(pid, {})
     missing = []
     for t, homes in base.items():
         have = per_tag.get(t, {}).get("homes", set())
         for h in homes:
             if h not in have:
-                missing.append("%s: no obligation generated in %s (present in the committed baseline)" % (t, h))
+                why = ""
+                if unit_results and ":" in h:
+                    u, fn = h.split(":", 1)
+                    r = unit_results.get(u)
+                    if r is not None and fn in getattr(r, "degraded", {}):
+                        why = " - the function could not be extracted and is assumed by its contract in this run: " + r.degraded[fn][:300]
+                missing.append("%s: no obligation generated in %s (present in the committed baseline)%s" % (t, h, why))
     return missing
+
+
+def depends_on_degraded(pid, unit_results):
+    """a function whose obligations decide `pid` and that (transitively, inside its unit) calls a degraded function -
+    or hosts a degraded outlined closure - was verified against a contract nobody checked in this run: undecided"""
+    base = load_json(BASELINE, {}).get(pid, {})
+    out = []
+    for u, res in unit_results.items():
+        deg = getattr(res, "degraded", {})
+        if not deg or res.refused or res.compile_error:
+            continue
+        fns = [it for it in res.items if it["kind"] == "fn" and it["unit_lines"] != [0, 0] and it.get("out_name")]
+        text = {}
+        for it in fns:
+            a, b = it["unit_lines"]
+            text[it["name"]] = text.get(it["name"], "") + "\n" + "\n".join(res.lines[a - 1:b])
+        out_names = {}
+        for it in fns:
+            out_names.setdefault(it["name"], set()).add(it["out_name"].split("__arm")[0])
+        affected = set(deg)
+        changed = True
+        while changed:
+            changed = False
+            for name in text:
+                if name in affected:
+                    continue
+                hit = None
+                for a in affected:
+                    if a.startswith(name + "#"):
+                        hit = a
+                        break
+                    for o in out_names.get(a, ()):
+                        if re.search(r"(?<![A-Za-z0-9_])" + re.escape(o) + r"\s*\(", text[name]):
+                            hit = a
+                            break
+                    if hit:
+                        break
+                if hit:
+                    affected.add(name)
+                    changed = True
+        homes = set()
+        for t, hs in base.items():
+            for h in hs:
+                if h.startswith(u + ":"):
+                    homes.add(h.split(":", 1)[1])
+        for fn in sorted(homes & (affected - set(deg))):
+            out.append("%s:%s is verified against the contract of a function that could not be extracted in this run (%s)" % (u, fn, ", ".join(sorted(deg))[:200]))
+    return out
 
 
 def trusted_base(unit_results):
@@ -331,7 +387,10 @@ def main(argv):
             vac = {}
             for u, f in vac_f.items():
                 try:
-                    vac[u] = f.result()
+                    fd = getattr(results[u], "forced_degrade", None)
+                    # functions degraded because the unit did not compile with their text: the probes are placed in
+                    # the same degraded unit
+                    vac[u] = zv.run_vacuity(u, degrade=fd) if fd else f.result()
                 except Exception as e:  # a refused vacuity extraction is reported, not fatal for the verdict of the main run
                     vac[u] = (0, [{"n": -1, "where": "vacuity run failed: %s" % str(e)[:300]}])
     except zv.Undecided as e:
@@ -377,6 +436,9 @@ def main(argv):
             continue
         for pr in unreached:
             undecided.append("vacuity guard: %s: `%s` is unreachable under the contracts (its probe verified)" % (u, pr["where"]))
+    if update_baseline and any(getattr(r, "degraded", None) for r in results.values()):
+        print("UNDECIDED: --update-baseline refused: functions are degraded on this tree: %s" % {u: sorted(r.degraded) for u, r in results.items() if getattr(r, "degraded", None)})
+        return 2
     if update_baseline:
         base = load_json(BASELINE, {})
         base[pid] = {t: sorted(e["homes"]) for t, e in sorted(cl["per_tag"].items()) if not e.get("implicit")}
@@ -386,7 +448,8 @@ def main(argv):
             ab[u] = fns
         json.dump(ab, open(ASSUMED, "w"), indent=1, sort_keys=True)
         print("baseline for %s: %d tags" % (pid, len(base[pid])))
-    undecided += ["baseline: " + m for m in check_baseline(pid, cl["per_tag"])]
+    undecided += ["baseline: " + m for m in check_baseline(pid, cl["per_tag"], results)]
+    undecided += depends_on_degraded(pid, results)
     if cl["obligations"] == 0:
         undecided.append("no obligation generated for %s (vacuity guard)" % pid)
 
@@ -464,6 +527,7 @@ def main(argv):
             "undecided": undecided,
             "stability_reruns": stability,
             "bounded_stand_in": kani_info,
+            "degraded_functions": {u: r.degraded for u, r in results.items() if getattr(r, "degraded", None)},
             "vacuity_probes": {u: {"probes": n, "proved_unreachable": [p["where"] for p in un]} for u, (n, un) in vac.items()},
             "evaluations": (sum((i.get("checks") or 1) for i in kani_info["harnesses"].values()) if kani_info else cl["obligations"]),
             "distinct_nontrivial": (len(kani_info["harnesses"]) if kani_info and P.get("level") == "model_checking" else max(2, len(cl["per_tag"]))),
